@@ -13,6 +13,14 @@
    The harness derives the cells from element ids (ElemwiseMC), so a result cell
    says which operand cells were combined.
 
+   Kernel-mode operations (names k_...): division-like and multi-output ufuncs
+   on operands that contain zeros, negative numbers, inf and nan.  What NumPy's
+   scalar kernel makes of two numbers is left *uninterpreted*: a result cell is
+   the term <<"K", a, b>> (<<"K", a>> for unary ones) naming the operand cells
+   the kernel is applied to (INF / NINF / NAN are codes for the float values);
+   the specification decides only what dask adds - which cells meet at which
+   position, which of the outputs is returned, the dtype kind, the error.
+
    Every operator returns  [err, shape, kind, cells]:  err = TRUE when NumPy
    raises (then any exception of the implementation is accepted).  A cell equal
    to DC is a don't-care (ufunc where= without out= leaves it uninitialised);
@@ -49,12 +57,21 @@ CmpOps   == {"eq", "ne", "lt", "le", "gt", "ge"}
 DivOps   == {"floordiv", "mod", "truediv"}
 BitOps   == {"and", "or", "xor"}
 UnOps    == {"neg", "abs", "square", "lnot"}
+KBinOps  == {"k_floordiv", "k_mod", "k_truediv", "k_fmod", "k_power", "k_divmod0", "k_divmod1"}
+KUnOps   == {"k_modf0", "k_modf1", "k_frexp0", "k_frexp1"}
+KOps     == KBinOps \cup KUnOps
+INF == 70001   NINF == 70002   NAN == 70003     \* codes of float cells (kernel mode only)
 
 \* result kind of op on operands whose promoted kind is p; "E" = TypeError
 OpKind(op, p) ==
   CASE op \in CmpOps                 -> "b"
     [] op = "lnot"                   -> "b"
-    [] op = "truediv"                -> (IF p = "c" THEN "c" ELSE "f")
+    [] op \in {"truediv", "k_truediv"} -> (IF p = "c" THEN "c" ELSE "f")
+    [] op \in {"k_floordiv", "k_mod", "k_fmod", "k_divmod0", "k_divmod1"}
+                                     -> (IF p = "c" THEN "E" ELSE IF p = "b" THEN "i" ELSE p)
+    [] op = "k_power"                -> (IF p = "b" THEN "i" ELSE p)
+    [] op \in {"k_modf0", "k_modf1", "k_frexp0"} -> (IF p = "c" THEN "E" ELSE "f")
+    [] op = "k_frexp1"               -> (IF p = "c" THEN "E" ELSE "i")
     [] op \in {"floordiv", "mod"}    -> (IF p = "c" THEN "E" ELSE IF p = "b" THEN "i" ELSE p)
     [] op = "sub"                    -> (IF p = "b" THEN "E" ELSE p)
     [] op = "neg"                    -> (IF p = "b" THEN "E" ELSE p)
@@ -91,12 +108,14 @@ BinVal(op, a, b, rk) ==
     [] op = "or"       -> BitOr(a, b)
     [] op = "xor"      -> BitXor(a, b)
     [] op = "truediv"  -> <<a, b>>
+    [] op \in KBinOps  -> <<"K", a, b>>
 
 UnVal(op, a, rk) ==
   CASE op = "neg"    -> Cast(rk, -a)
     [] op = "abs"    -> (IF a < 0 THEN -a ELSE a)
     [] op = "square" -> Cast(rk, a * a)
     [] op = "lnot"   -> B2I(a = 0)
+    [] op \in KUnOps -> <<"K", a>>
 
 -----------------------------------------------------------------------------
 \* x op y  /  ufunc(x, y)
@@ -107,8 +126,10 @@ Binary(op, x, y) ==
      ELSE LET osh == BroadcastShape(shapes)
               xa  == BroadcastTo(x.sh, x.v, osh)
               ya  == BroadcastTo(y.sh, y.v, osh)
-          IN [err |-> FALSE, shape |-> osh, kind |-> rk,
-              cells |-> [j \in 1..Size(osh) |-> BinVal(op, xa[j], ya[j], rk)]]
+          IN \* "Integers to negative integer powers are not allowed" (checked per element)
+             IF op = "k_power" /\ rk = "i" /\ y.k = "i" /\ \E j \in DOMAIN ya : ya[j] < 0 THEN Err
+             ELSE [err |-> FALSE, shape |-> osh, kind |-> rk,
+                   cells |-> [j \in 1..Size(osh) |-> BinVal(op, xa[j], ya[j], rk)]]
 
 Unary(op, x) ==
   LET rk == OpKind(op, KindOf(<<x>>))
